@@ -4,6 +4,7 @@
 -/
 import ErgoProofs.Lemmas.ProcThm
 import ErgoProofs.Lemmas.Ready
+import ErgoProofs.Lemmas.ProcBytesThm
 namespace Ergo
 open Proc
 
@@ -51,5 +52,22 @@ theorem C01_mutual_exclusion {log0 : List Event} {ws : List (List Event → Exce
     (s.holder = some p ↔ (w.phase = .locked ∨ (∃ snap, w.phase = .read snap) ∨ (∃ snap wr, w.phase = .wrote snap wr) ∨
                           (∃ snap e, w.phase = .erred snap e))) :=
   holder_unique h p w hw
+
+/-- the same on the **bytes**: in every run of the byte-level system (the log in ergo's real line format, any number of writers and lock-free
+    readers, any schedule, deaths between system calls) a claimer that won decided on the file as its predecessors left it and was handed the
+    (created_at, id)-least ready task of that file -/
+theorem C01_claim_outcome_on_the_bytes (f : Storage.Bytes) (ws : List (List Event → Except CmdErr Write)) (nr limit : Nat) (ets : Event → String)
+    (es : List Event) (hf : Storage.readEvents Codec.classifyLine limit f = .ok es) (hfw : Codec.AllWf es)
+    (hw : ∀ d ∈ ws, ∀ snap wr, Codec.AllWf snap → d snap = .ok wr → Codec.AllWf wr.events)
+    (s : ProcB.BSys) (h : ProcB.BReachableNT (ProcB.BSys.init f ws nr limit ets) s) (i p : Nat) (snap : List Event) (w : Write)
+    (agent epic : String) (now : Time) (hd : ws[p]? = some (claimDecide agent epic now))
+    (hc : s.commits[i]? = some (p, snap, w)) :
+    snap = Proc.logAfter es s.commits i ∧
+    ∃ g t rest, replay snap = .ok g ∧ readyTasks g epic = t :: rest ∧
+      (∀ u ∈ readyTasks g epic, claimLe t u = true) ∧ t.isEpic = false ∧ isReady g t = true ∧
+      w = .append [Event.claim t.id agent (some now), Event.state t.id .doing (some now)] := by
+  obtain ⟨hreach, _⟩ := ProcB.reach_sim h (ProcB.inv_init f ws nr limit ets es hf hfw hw)
+  rw [ProcB.abs_init, ProcB.decode_of_ok hf] at hreach
+  exact C01_claim_outcome hreach i p snap w agent epic now hd hc
 
 end Ergo
